@@ -734,7 +734,16 @@ class FnKinds:
     # ---------------------------------------------------------------------------------------------
     # arrays
     # ---------------------------------------------------------------------------------------------
-    def array_of(self, n):
+    def sub_arr(self, n):
+        """Arr of the subscripted object of a subscript expression n (uses the class of an overloaded operator[] as type hint)"""
+        sub = _subscript(n)
+        if sub is None:
+            return None
+        n2 = strip(n)
+        hint = n2.get("ccls") if n2.get("k") in ("OpCall", "MCall") else None
+        return self.array_of(sub[0], hint=hint)
+
+    def array_of(self, n, hint=None):
         """Arr for an array-valued expression (vector object, pointer from data()/accessor), or None"""
         n = strip(n)
         if n is None:
@@ -771,7 +780,7 @@ class FnKinds:
             return None
         if key in self.alias_arr:
             return self.alias_arr[key]
-        return self._arr_by_key(key, n)
+        return self._arr_by_key(key, n, hint=hint)
 
     def _accessor_field(self, call):
         """Member node F if the callee's body is `return F;` / `return F.data();` for a field F of its class"""
@@ -809,10 +818,14 @@ class FnKinds:
         self.arrs[key] = a
         return a
 
-    def _arr_by_key(self, key, node):
+    def _arr_by_key(self, key, node, hint=None):
         if key in self.arrs:
             return self.arrs[key]
         node = strip(node)
+        if hint and self.ct.obj_arrays and key not in self.dynamic_arrays:
+            for tre, spec in self.ct.obj_arrays.items():
+                if re.search(tre, hint):
+                    return self._contract_arr(key, key, spec)
         if key in self.dynamic_arrays:
             a = Arr(key, extent=None, owner="dynamic")
             self.arrs[key] = a
@@ -972,7 +985,7 @@ class FnKinds:
             return Top("data", "sum of ranged values")
         sub = _subscript(n)
         if sub is not None:
-            arr = self.array_of(sub[0])
+            arr = self.sub_arr(n)
             if arr is None:
                 return Top("data", "element of untracked array %s" % render(sub[0]))
             if arr.elem is not None:
@@ -1066,7 +1079,7 @@ class FnKinds:
             return "*" + self.canon(dr, extra)
         sub = _subscript(n)
         if sub is not None:
-            a = self.array_of(sub[0])
+            a = self.sub_arr(n)
             return "%s[%s]" % (a.key if a is not None else self.canon(sub[0], extra), self.canon(sub[1], extra))
         if k == "Bin":
             return "(%s %s %s)" % (self.canon(n["lhs"], extra), n["op"], self.canon(n["rhs"], extra))
@@ -1135,6 +1148,20 @@ class FnKinds:
             sc = self._resolve_iter_start(vdecl.get("init"))
             if sc is not None and sc.get("k") == "MCall":
                 start_call = sc
+        if start_call is not None and start_call.get("n") in ("begin", "cbegin") and not start_call.get("a"):
+            end_call = self._resolve_iter_start(rhs)
+            o1 = self.okey(start_call.get("obj"))
+            if end_call is not None and end_call.get("n") in ("end", "cend") and o1 is not None and o1 == self.okey(end_call.get("obj")):
+                ok_inc = any((_is_incdec(x) or (None, 0))[0] is not None and _is_incdec(x)[0].get("d") == var["d"] for x in incs)
+                if ok_inc:
+                    lp = Loop("adj", f, var=var["d"], obj=o1, obj_end=o1, node_expr=None, node_expr_end=None, depth=depth,
+                              begin_call=start_call, end_call=end_call, extra_inc=[x for x in incs if not (_is_incdec(x) and _is_incdec(x)[0].get("d") == var["d"])],
+                              varname=var["n"], container=True)
+                    lp.elem = Top("data", "element of container %s" % o1)
+                    lp.dom = None
+                    lp.pair_ok = True
+                    lp.canon = "each(%s)" % o1
+                    return lp
         if start_call is not None and start_call.get("n") == self.ct.adj_begin:
             end_call = self._resolve_iter_start(rhs)
             if end_call is None or end_call.get("n") != self.ct.adj_end:
@@ -1433,7 +1460,7 @@ class FnKinds:
         if tgt.get("k") == "Un" and tgt.get("op") == "&":
             sub = _subscript(tgt["e"])
             if sub is not None:
-                arr = self.array_of(sub[0])
+                arr = self.sub_arr(tgt["e"])
                 if arr is not None:
                     self.cursor[d] = {"arr": arr.key, "kind": "ptr", "start": sub[1], "node": s, "var": v["n"], "frames": list(self.frames)}
                     self.ev("cursor-init", s, var=d, arr=arr, start=sub[1], start_rng=self.rng(sub[1]), form="ptr", start_canon=self.canon(sub[1]))
@@ -1441,7 +1468,7 @@ class FnKinds:
                     return
         sub = _subscript(i2)
         if sub is not None and v.get("ref"):
-            arr = self.array_of(sub[0])
+            arr = self.sub_arr(i2)
             if arr is not None and getattr(arr, "cursor_of", None):
                 self.cursor[d] = {"arr": arr.cursor_of, "kind": "ref", "via": arr.key, "sel": sub[1], "node": s, "var": v["n"], "frames": list(self.frames)}
                 self.ev("cursor-sel", s, var=d, arr=arr, sel=sub[1], sel_rng=self.rng(sub[1]), sel_canon=self.canon(sub[1]))
@@ -1450,7 +1477,7 @@ class FnKinds:
                 return
         # integer cursor: k = P[i] that is later advanced
         if sub is not None and self.mut.get(d):
-            arr = self.array_of(sub[0])
+            arr = self.sub_arr(i2)
             if arr is not None and getattr(arr, "offset", False) and arr.fresh:
                 self.cursor[d] = {"arr": None, "kind": "idx", "start": i2, "offarr": arr.key, "startidx": sub[1], "node": s, "var": v["n"], "frames": list(self.frames)}
                 self.ev("cursor-init", s, var=d, arr=None, offarr=arr, start=sub[1], start_rng=self.rng(sub[1]), form="idx",
@@ -1517,7 +1544,9 @@ class FnKinds:
             self.frames.pop()
             return
         # header expressions are evaluated (subscripts in bounds are events)
-        if lp.kind == "adj":
+        if lp.kind == "adj" and getattr(lp, "container", False):
+            self.ev("eachloop", f, loop=lp)
+        elif lp.kind == "adj":
             done = {id(e.node) for e in self.events if e.kind == "adjcall"}
             if id(lp.begin_call) not in done:
                 self.ev("adjcall", lp.begin_call, obj=lp.obj, node_expr=lp.node_expr, rng=self.rng(lp.node_expr), dom=lp.dom, loop=lp,
@@ -1699,7 +1728,7 @@ class FnKinds:
 
     def subscript_event(self, n, mode, val=None, op=None, addr=False):
         sub = _subscript(n)
-        arr = self.array_of(sub[0])
+        arr = self.sub_arr(n)
         if arr is None:
             # subscript on something that is not a tracked array: e.g. vector of sets, TargetSet
             e = self.ev("sub-untracked", n, base=sub[0], idx=sub[1], rng=self.rng(sub[1]), mode=mode, val=val, base_key=self.okey(sub[0]),
@@ -1743,6 +1772,8 @@ class FnKinds:
             if dd in self.guards:
                 del self.guards[dd]
             return self.ev("scalar", node, var=dd, name=l["n"], val=val, op=op, val_canon=self.canon(val) if val is not None else None)
+        if l.get("k") == "Member" and self.okey(l) is None:
+            return self.ev("opaque-write", node, target=l, val=val, op=op)
         if l.get("k") == "Member":
             key = self.okey(l)
             ty = self.fn.ntype(l)
@@ -1768,6 +1799,11 @@ class FnKinds:
             return self.ev("field", node, key=key, val=None, op=op, val_expr=val)
         if d is not None:
             return self.ev("deref-write", node, target=d, val=val, op=op)
+        if l.get("k") in ("OpCall", "MCall"):
+            # element access through a reference-returning call: index_set(i, j) = v
+            self.expr(l)
+            return self.ev("call-write", node, target=l, val=val, op=op, val_rng=self.rng(val) if val is not None else None,
+                           target_canon=self.canon(l))
         self.unk("write through %s" % render(l)[:60], node)
         return None
 
